@@ -365,6 +365,30 @@ def s2b(ctx, rep):
                   "the scan stops at the first rung although nothing can be promoted there (lower rungs are never looked at)")
 
 
+def s2c(ctx, rep):
+    """the cost the cost-aware rung system ranks by is the ACCUMULATED cost of all jobs of the trial: the key under which
+    on_trial_result writes `cost + offset of earlier jobs` into the result is the key the rung system is told to read"""
+    P = ctx.P
+    f = P.method("HyperbandScheduler", "on_trial_result")
+    st = [x for x in walk_shallow(f.node) if isinstance(x, ast.Assign) and isinstance(x.targets[0], ast.Subscript)
+          and any(isinstance(y, ast.Attribute) and y.attr == "_cost_offset" for y in ast.walk(x.value))
+          or (isinstance(x, ast.Assign) and isinstance(x.targets[0], ast.Subscript) and U(x.targets[0].value) == "result"
+              and any(isinstance(y, ast.Name) and y.id in vars_assigned_from(f, lambda v: any(isinstance(z, ast.Attribute) and z.attr == "_cost_offset"
+                                                                                              for z in ast.walk(v))) for y in ast.walk(x.value)))]
+    st = [x for x in st if U(x.targets[0].value) == "result"]
+    if len(st) != 1:
+        raise AnchorError("HyperbandScheduler.on_trial_result: store of the accumulated cost into the result not found")
+    key = U(st[0].targets[0].slice)
+    init = P.method("HyperbandScheduler", "__init__")
+    mk = [x for x in walk_shallow(init.node) if isinstance(x, ast.Call) and fn_name(x) == "HyperbandBracketManager"]
+    ok = len(mk) == 1 and kwarg(mk[0], "cost_attr") is not None and U(kwarg(mk[0], "cost_attr")) == key
+    rep.put(ok, "S2", "agreement", "HyperbandScheduler: the rung systems read the cost under the key the accumulated cost is written to", init,
+            kwarg(mk[0], "cost_attr") if mk else None, f"result[{key}] = cost + offset; HyperbandBracketManager(cost_attr={key})",
+            f"the rung systems are given cost_attr=`{U(kwarg(mk[0], 'cost_attr')) if mk and kwarg(mk[0], 'cost_attr') is not None else '?'}` but the "
+            f"accumulated cost is written to result[{key}]: rungs record the cost of the current job only, so a resumed trial looks cheaper than "
+            "it was and is promoted although it is not eligible")
+
+
 def s9(ctx, rep):
     """reports of a resumed trial at or below the level it was resumed from are flagged ignore_data (and only those): the
     cost-aware variant drops the cost offset on such reports (shared with C14-S3)"""
@@ -381,6 +405,7 @@ def run(ctx, rep, tier="quick"):
     s1(ctx, rep)
     s2(ctx, rep)
     s2b(ctx, rep)
+    s2c(ctx, rep)
     s3(ctx, rep)
     s4(ctx, rep)
     s5(ctx, rep)
